@@ -678,7 +678,7 @@ func (m *machine) bufferOf(p *value) *value {
 
 // bufferWrite appends text to a *bytes.Buffer held in target memory.
 func bufferWrite(m *machine, t types.Type, p *value, text *Term) bool {
-	if t.String() != "*bytes.Buffer" {
+	if t.String() != "*bytes.Buffer" && t.String() != "*strings.Builder" {
 		return false
 	}
 	b := m.bufferOf(p)
